@@ -136,6 +136,9 @@ pub enum Op {
     Describe { prog: Prog },
     /// run the operations on a freshly spawned simulated thread and join it
     OnThread { ops: Vec<Op> },
+    /// ONE DescriptorManager handle kept in a binding: the registrations are made through it, then the
+    /// operations run while it is still alive, then it is dropped
+    WithManager { regs: Vec<(DKind, String, usize)>, then: Vec<Op> },
 }
 
 impl Op {
